@@ -51,10 +51,21 @@ def run(rep):
     if ok_shape:
         inc, emb = dl[0][1], dl[1][1]
         ok_inc = inc[0] == 'tmpl' and E.tmpl_text(inc).replace(' ', '') == 'include_str!(#' + list(E.holes(inc))[0] + ')' and list(E.holes(inc).values())[0] == ('unwrap', P)
+        if not ok_inc and inc[0] == 'tmpl':
+            # the macro call assembled from pieces (`quote!(#name!(#argument))` with name = format_ident!("include_str"), argument =
+            # Literal::string(path)): the fixed parts are expanded statically, a string hole and Literal::string of the same text print alike
+            import engine_skel as _K
+            import re as _re
+            xt = _K.static_expand(ogp, inc).replace(' ', '')
+            dyn = [v_ for v_ in E.holes(E.flatten(inc)).values() if v_[0] != 'call' or v_[1] != 'Ident::new']
+            dyn = [v_[2][0] if v_[0] == 'call' and v_[1] == 'Literal::string' else v_ for v_ in dyn]
+            ok_inc = bool(_re.fullmatch(r'include_str!\(#\w+\)', xt)) and dyn == [('unwrap', P)]
         rep.check(ok_inc, 'C16.include-path', 'include-path', where,
                   f'the include variant is `{E.tmpl_text(inc) if inc[0] == "tmpl" else E.show(inc, maxdepth=4)}` with {E.show(list(E.holes(inc).values())[0], maxdepth=6) if inc[0] == "tmpl" and E.holes(inc) else None}; '
                   f'expected include_str!(<the given path, unmodified>)', ok_detail='include_str!(wgsl_include_path)')
         ok_emb = emb[0] == 'tmpl' and E.tmpl_text(emb) == '#' + list(E.holes(emb))[0] and list(E.holes(emb).values())[0] == S
+        if not ok_emb and emb == ('call', 'Literal::string', [S]):
+            ok_emb = True       # Literal::string(wgsl_source) is what interpolating the &str prints
         rep.check(ok_emb, 'C16.embedded-source', 'embedded-source', where,
                   f'the embedded variant is `{E.tmpl_text(emb) if emb[0] == "tmpl" else E.show(emb, maxdepth=4)}` with '
                   f'{E.show(list(E.holes(emb).values())[0], maxdepth=6) if emb[0] == "tmpl" and E.holes(emb) else None}; expected the wgsl_source parameter itself interpolated as one string '
